@@ -32,9 +32,6 @@ type runtimeContextManager struct {
 	parent *runtimeContextManager
 
 	messageHandler Callable
-	// Thread that installed the message handler (nil if not known): errors in
-	// other threads (coroutines) are not handled by it.
-	messageHandlerThread *Thread
 
 	trackCpu         bool
 	trackMem         bool
@@ -130,7 +127,6 @@ func (m *runtimeContextManager) PushContext(ctx RuntimeContextDef) {
 	m.trackMem = m.hardLimits.Memory > 0 || m.softLimits.Memory > 0
 	m.status = StatusLive
 	m.messageHandler = ctx.MessageHandler
-	m.messageHandlerThread = nil
 	m.parent = &parent
 	if ctx.GCPolicy == IsolateGCPolicy || ctx.HardLimits.Millis > 0 || ctx.HardLimits.Cpu > 0 || ctx.HardLimits.Memory > 0 {
 		m.weakRefPool = luagc.NewDefaultPool()
